@@ -111,14 +111,20 @@ def selfchecks(tier):
                     for oj in (None, True, False):
                         for d in DATAS:
                             f = RF(a, dict(d), None if fmt == 'GRAY' else fmt)
-                            tm = RMQ.frames2topicmsgs({'main': f, '_h': RF(dict(d))}, oj)
-                            wire = {t: [json.loads(json.dumps(m[0])), *m[1:]] for t, m in tm.items()}
-                            g = RMQ.topicmsgs2frames(wire)['main']
-                            assert (g.height, g.width, g.format) == (f.height, f.width, f.format) and g.data == f.data, (shape, fmt, oj)
-                            assert g.image.shape == a.shape
-                            if not oj and not (g.image == a).all():
-                                raise ConcreteViolation('pixels', f'real numpy/cv2/mq: raw round trip of a {a.shape} {fmt} image with strides {a.strides} (outs_jpg={oj}) is not pixel-identical')
-                            else: assert abs(g.image.astype(int) - a.astype(int)).max() <= 80
+                            what = f'real numpy/cv2/mq: round trip of a {a.shape} {fmt} image with strides {a.strides} (outs_jpg={oj})'
+                            try:
+                                tm = RMQ.frames2topicmsgs({'main': f, '_h': RF(dict(d))}, oj)
+                                wire = {t: [json.loads(json.dumps(m[0])), *m[1:]] for t, m in tm.items()}
+                                g = RMQ.topicmsgs2frames(wire)['main']
+                                gi = g.image
+                            except Exception as ex:
+                                raise ConcreteViolation('exception', f'{what} raised {type(ex).__name__}: {ex}')
+                            if (g.height, g.width, g.format) != (f.height, f.width, f.format) or gi.shape != a.shape:
+                                raise ConcreteViolation('shape', f'{what}: ({f.height}, {f.width}, {f.format}) came back as ({g.height}, {g.width}, {g.format}), array shape {gi.shape}')
+                            if g.data != f.data: raise ConcreteViolation('data', f'{what}: data {f.data!r} came back as {g.data!r}')
+                            if not oj and not (gi == a).all():
+                                raise ConcreteViolation('pixels', f'{what} is not pixel-identical')
+                            if oj and abs(gi.astype(int) - a.astype(int)).max() > 80: raise ConcreteViolation('pixels', f'{what}: jpg decode far off')
                             n += 1
         return f'real codec round trip ok on {n} concrete frames (1xN, Nx1, strided, GRAY via jpg)'
     return [('ndmodel-vs-real-numpy-cv2', nd_selftest.run), ('real-codec-concrete', real_codec)]
